@@ -29,6 +29,14 @@ Check (C16_mdhd_duration_wraps_refuted : (forall ts dur lang, 4294967296 <= dur 
 Check (C16_parameter_set_length_wraps_refuted : (forall c, 65536 <= len (avc_sps c) ->
   rd16 (skipn 14 (build_avcc_box c)) = Some (len (avc_sps c) mod 65536, skipn 16 (build_avcc_box c)) /\
   len (avc_sps c) mod 65536 <> len (avc_sps c))%type).
+Check (C16_oversized_parameter_sets_are_rejected : (forall w v m fs,
+  w_finalized w = false ->
+  match w_vconfig w with
+  | Some (CfgAvc a) => 65535 < len (avc_sps a) \/ 65535 < len (avc_pps a)
+  | Some (CfgHevc h) => 65535 < len (hevc_vps h) \/ 65535 < len (hevc_sps h) \/ 65535 < len (hevc_pps h)
+  | _ => False
+  end ->
+  finalize w v m fs = (w, FinErr (FinIo IoInvalidInput)))%type).
 Check (C16_audio_rate_field_wraps_refuted : (forall ch rate rest, 65536 <= rate ->
   rd16 (skipn 24 (audio_entry_prefix ch rate ++ rest)) = Some (rate mod 65536, skipn 26 (audio_entry_prefix ch rate ++ rest)))%type).
 Check (C16_fragment_duration_wraps_refuted : (forall s n, 4294967296 <= n - fs_dts s ->
